@@ -51,6 +51,11 @@ def check_doc(doc, lineno):
     """-> (requests for the model, impl texts, problems)"""
     from xdoctest import doctest_example, parser
     ex = doctest_example.DocTest(docsrc=doc, lineno=lineno)
+    # explicit arguments win over whatever the example's configuration says (--offset, --colored, a tty ...)
+    if (len(doc) + lineno) % 2:
+        ex.config['offset_linenos'] = True
+        ex.config['colored'] = True
+        ex.config['verbose'] = 3
     with warnings.catch_warnings():
         warnings.simplefilter('ignore')
         ex._parse()
